@@ -39,6 +39,21 @@ PROPS["C16"] = dict(
     design="DESIGN.md §4 C16",
 )
 
+PROPS["C08"] = dict(
+    technique="static analysis: role discovery in the parallel map, monotone-container / pairing / check-and-set rules on its CFG and def-use chains; linear form of the retry bound",
+    text=(
+        "Decides the bookkeeping discipline of async_map_unordered on every path of its control-flow graph: "
+        "containers indexed by in-flight futures are never rebound, every future added to `pending` is "
+        "registered in the input and start-time maps, a failed task's exception is re-raised unless the twin "
+        "map shows a live or successful twin, emission is guarded by a delivered-state check, a backup is "
+        "launched only for a twin-less task and registered both ways, the loop exits only when `pending` is "
+        "empty, and the thread retrier re-raises after retries+1 attempts. These hold for every schedule of "
+        "completions, including the same-round interleavings that tests with real timers never hit."
+    ),
+    note="Does not decide timing thresholds of should_launch_backup, hangs inside asyncio, or IO fault behaviour of zarr/fsspec.",
+    design="DESIGN.md §4 C08",
+)
+
 CLAIMED = sorted(PROPS)
 
 NOT_APPLICABLE = {
